@@ -276,6 +276,20 @@ def run(ctx):
         ctx.seen(("table", vs, scale, len(got)))
         if not near and got != want:
             ctx.fail_input("table", case, "bonds with the %s table (scale %s, default %s): spurious %s missing %s" % (vs, scale, dflt, sorted(got - want)[:3], sorted(want - got)[:3]), classify)
+    # ---- histories: a call with custom radii must not leak into a later call without them (same set / scale / default)
+    for t in range(9 if quick else 60):
+        vs = ["csd", "jmol", "ase"][t % 3]
+        a = Atoms("HHCO", positions=[[0, 0, 0], [1.6, 0, 0], [4.0, 0, 0], [4.0, 2.9, 0]], cell=np.diag([9.0, 9.0, 9.0]), pbc=True)
+        try:
+            before = sorted((int(i), int(j), tuple(int(x) for x in c_)) for (i, j, c_, d) in Bonds.get(a, vdw_set=vs))
+            Bonds.get(a, vdw_set=vs, vdw_custom={"H": 3.4, "C": 0.2, "O": 3.3})
+            after = sorted((int(i), int(j), tuple(int(x) for x in c_)) for (i, j, c_, d) in Bonds.get(a, vdw_set=vs))
+            ctx.evaluations += 1
+            if before != after:
+                ctx.fail_input("table", dict(vdw_set=vs, history="custom radii then tabulated radii"),
+                               "a call with vdw_custom changes the result of a later call without it: %s -> %s" % (before, after), classify)
+        except Exception as e:
+            ctx.fail_input("table", dict(vdw_set=vs, history="custom then tabulated"), "raised %s: %s" % (type(e).__name__, e), classify)
     # single atom
     try:
         one = Atoms("H", positions=[[0, 0, 0]], cell=[5, 5, 5], pbc=True)
